@@ -516,6 +516,7 @@ theorem deIterate_ok {cfg : DECfg} {sp : Space} {f : Pos → Bool} (hgeo : cfg.m
         | choice _ => simp at h
         | parents _ => simp at h
         | inits _ => simp at h
+        | vec _ => simp at h
 
 theorem de_ok (cfg : DECfg) (sp : Space) (f : Pos → Bool) (hgeo : cfg.member.geo = sp.geo) (hsp : SpaceOK sp) :
     PopOK (deBackend cfg) (fun s => s) (fun _ => True) sp f :=
